@@ -122,6 +122,8 @@ Record scfg := {
   sc_chunked : bool;           (* cfg.ChunkDurS != nil: chunked transfer through cmafSource *)
   sc_catchup_checks : bool;    (* the catch-up loop looks at lastSegNrToSend (true: the code since fix 07f3435;
                                   false: the code before it; read from the source by the harness) *)
+  sc_first_fix : bool;         (* the first number honours the start number and an empty timeline (true:
+                                  proposed_fixes/C16-first-number.diff; false: the pinned code; read from the source) *)
   sc_avail : Z -> res Z        (* calcSegmentAvailabilityTime(asset, refRep, nr, cfg) *)
 }.
 
@@ -149,6 +151,13 @@ Definition lastTimeOf (se : segEntries) : Z :=
 (** findLastSegNr: timeline of the reference representation over the last 60 s, ato 0 *)
 Definition findLastSegNr (cf : scfg) (nowMS : Z) : Z :=
   lastNrOf (generateTimelineEntries (sc_ref cf) (calcWrapTimes (sc_loopMS cf) (sc_cfg cf) nowMS 60000) 0).
+
+(** The first number of a session.  Pinned code: lastNr + 1, where lastNr counts from 0 although
+    segment URLs and calcSegmentAvailabilityTime count from the start number, and is -2 for an empty
+    timeline.  Proposed repair: max(lastNr, -1) + 1 + startNr. *)
+Definition firstNr (cf : scfg) (nowMS : Z) : Z :=
+  if sc_first_fix cf then Z.max (findLastSegNr cf nowMS) (-1) + 1 + startNr (sc_cfg cf)
+  else findLastSegNr cf nowMS + 1.
 
 (** [int(cfg.getAvailabilityTimeOffsetS() * 1000)] in sendMediaSegments *)
 Definition atoMSint (c : tcfg) : Z :=
@@ -336,7 +345,7 @@ Definition start (cf : scfg) (nowMS : Z) (initres : list bool) : list Z * sstate
   let all_ok := forallb (fun i => nth i initres true) (seq 0 (length (sc_reps cf))) in
   let st0 := {| ph := PRunning; nextNr := 0; lastToSend := -1; availT := 0 |} in
   if negb all_ok then (inits, stopped st0) else
-  let nextSegNr := findLastSegNr cf nowMS + 1 in
+  let nextSegNr := firstNr cf nowMS in
   match nrSegsToSend cf with
   | Panic s => (inits, crashed s st0)
   | Err _ => (inits, stopped st0)
@@ -374,11 +383,12 @@ Definition session_c (cf : scfg) (nowMS : Z) (initres : list bool) (cancelInit :
   end.
 
 (** The configuration with the code's own availability function. *)
-Definition mk_scfg_rc (rm : rounding) (cc : bool) (reps : list irep) (refr : rep) (loopMS segDurMS : Z) (c : tcfg)
+Definition mk_scfg_rcf (rm : rounding) (cc ff : bool) (reps : list irep) (refr : rep) (loopMS segDurMS : Z) (c : tcfg)
            (timeline test : bool) (dur : option Z) (chunked : bool) : scfg :=
   {| sc_reps := reps; sc_ref := refr; sc_loopMS := loopMS; sc_segDurMS := segDurMS; sc_cfg := c;
      sc_timeline := timeline; sc_test := test; sc_dur := dur; sc_chunked := chunked; sc_catchup_checks := cc;
-     sc_avail := availMS_float_r rm refr loopMS c |}.
+     sc_first_fix := ff; sc_avail := availMS_float_r rm refr loopMS c |}.
+Definition mk_scfg_rc (rm : rounding) (cc : bool) := mk_scfg_rcf rm cc false.
 Definition mk_scfg_r (rm : rounding) := mk_scfg_rc rm false.
 Definition mk_scfg := mk_scfg_rc RCeil true.
 
